@@ -1225,6 +1225,8 @@ class Emitter:
                 a0, a1 = args[0], args[1]
             cmpop = '<' if k.endswith('min') else '>'
             lines.append(f"{res}(({a0}) {cmpop} ({a1})) ? {args[0]} : {args[1]};"); throws = False
+        elif name.startswith('llvm.usub.sat.'):
+            lines.append(f"{res}(({args[0]}) > ({args[1]})) ? ({args[0]}) - ({args[1]}) : 0;"); throws = False
         elif name.startswith('llvm.bswap.'):
             bits = s.resolve(ins.ret).bits
             lines.append(f"{res}__builtin_bswap{bits}({args[0]});"); throws = False
